@@ -39,6 +39,9 @@ pub proof fn lemma_mb_step(r: u64, b: u8, i: nat)
         &&& ((b & 0x80) == 0) == (b < 128)
         &&& (r ^ t) == r + ((b % 128) as nat) * pow2(7 * i)
         &&& (r ^ t) < pow2(7 * (i + 1))
+        // the three ways of writing the accumulation are the same here (the new group lies above every bit of r)
+        &&& (r | t) == (r ^ t)
+        &&& t == ((b % 128) as nat) * pow2(7 * i)
     }),
 {
     let sh: u64 = (7 * i) as u64;
@@ -48,7 +51,7 @@ pub proof fn lemma_mb_step(r: u64, b: u8, i: nat)
     lemma_shl64(7 * i);
     lemma_shl64(7 * (i + 1));
     assert((b & 0x7F) == b % 128 && ((b & 0x80) == 0) == (b < 128)) by (bit_vector);
-    assert(t == lo * p && (r ^ t) == r + t && (r ^ t) < (p << 7u64) && (p << 7u64) == (1u64 << ((sh + 7) as u64))) by (bit_vector)
+    assert(t == lo * p && (r ^ t) == r + t && (r | t) == (r ^ t) && (r ^ t) < (p << 7u64) && (p << 7u64) == (1u64 << ((sh + 7) as u64))) by (bit_vector)
         requires sh <= 56, lo < 128, t == lo << sh, p == 1u64 << sh, r < p;
 }
 
